@@ -18,10 +18,10 @@ def strip_truth(lines):
     return out, fails
 
 
-def gc_compare(scripts, truth=True, counters=True):
+def gc_compare(scripts, truth=True, counters=True, timeout=1200, mem_gb=None):
     """scripts: list of list-of-ops. Returns dict with disagreements and truth failures (per script index)."""
     text = "".join("\n".join(s) + "\n---\n" for s in scripts)
-    hl, ml, rc, herr = run_pair("gc", text, harness_env={"GC_TRUTH": "1"} if truth else None)
+    hl, ml, rc, herr = run_pair("gc", text, harness_env={"GC_TRUTH": "1"} if truth else None, timeout=timeout, mem_gb=mem_gb)
     hl, fails = strip_truth(hl)
     if not counters:
         # the trace()/callback counters are the subject of C16 only
@@ -119,16 +119,17 @@ def check_c08(tier, seed):
 
 
 def check_c16(tier, seed):
+    """yields, size tier by size tier (smallest first), (scripts, meta, compare-result): the caller stops at the
+    first tier that violates the bound, so that a super-linear collector is never run on a big graph"""
     rng = random.Random(seed)
-    t0 = time.time()
-    sizes = [1, 2, 4, 8, 16, 32, 64] if tier == "quick" else [1, 2, 4, 8, 16, 32, 64, 128, 256, 512, 1024]
+    sizes = [1, 2, 3, 4, 6, 8, 16, 32, 64] if tier == "quick" else [1, 2, 3, 4, 6, 8, 16, 32, 64, 128, 256, 512, 1024]
     kinds = ["ladder", "ladder_cyc", "fan", "fan_in", "chain", "ring", "shared"]
-    choices = ["all", "top", "keep_bottom", "keep_top"]
-    scripts, meta = [], []
-    for kind in kinds:
-        for ch in choices:
-            for k in sizes:
+    choices = ["all", "top", "only_top", "keep_bottom", "keep_top"]
+    for k in sizes:
+        scripts, meta = [], []
+        for kind in kinds:
+            for ch in choices:
                 ops, n, e = gcgen.family(kind, k, ch, rng)
                 scripts.append(ops); meta.append((kind, ch, k, n, e))
-    res = gc_compare(scripts, truth=False)
-    return scripts, meta, res, time.time() - t0
+        res = gc_compare(scripts, truth=False, timeout=120 if k <= 64 else 900, mem_gb=6)
+        yield scripts, meta, res
